@@ -113,10 +113,14 @@ def flatten_c10(events):
         if comp == "life" and ev == "reset":
             sc = e["scenario"]
             c = sc["cfg"]
+            mux_a, mux_b = c.get("muxA", c.get("mux", "require")), c.get("muxB", c.get("mux", "require"))
+            co_a, co_b = c.get("compatA", c.get("compat", "Standard")), c.get("compatB", c.get("compat", "Standard"))
+            la_a, la_b = c.get("latchingA", c.get("latching", False)), c.get("latchingB", c.get("latching", False))
             out.append(rec(t="reset", n=int(sc.get("id", 0)), site=c["mode"], b1="dc" in c["media"],
-                           b2="audio" in c["media"], b3="video" in c["media"], x=c["bundle"], sig=c["mux"],
-                           peer=c["ice"], b4=bool(c["latching"]), reason=c["compat"], inst=c["offerer"],
-                           m=1 if c.get("sched", "plain") == "slowSetRemote" else 0, evs=[c.get("reneg", "none")]))
+                           b2="audio" in c["media"], b3="video" in c["media"], x=c["bundle"], peer=c["ice"],
+                           inst=c["offerer"], m=1 if c.get("sched", "plain") == "slowSetRemote" else 0,
+                           evs=[c.get("reneg", "none"), mux_a, mux_b, co_a, co_b,
+                                "T" if la_a else "F", "T" if la_b else "F"]))
             continue
         if comp == "life" and ev == "end":
             out.append(rec(t="end", b1=bool(e.get("signal_ok")), b2=bool(e.get("connected")),
